@@ -240,6 +240,8 @@ class Sym:
                 return NotImplemented
             n = n.const_value()
         v = _num(n)
+        if v is not None and v == Fraction(1, 2):
+            return ENGINE.sqrt_of(self)
         if v is None or v.denominator != 1 or v < 0:
             return NotImplemented
         r = Sym(_CP_ONE)
@@ -555,7 +557,7 @@ _Z3_CACHE: Dict[Any, Any] = {}
 def z3_atom(name: str):
     v = _Z3_ATOMS.get(name)
     if v is None:
-        v = z3.Int(name) if ENGINE.int_atoms else z3.Real(name)
+        v = z3.Int(name) if (ENGINE.int_atoms and not name.startswith("sqrt!")) else z3.Real(name)
         _Z3_ATOMS[name] = v
     return v
 
@@ -837,6 +839,28 @@ class Engine:
         self._assert(c)
         self.trace.append((c, val, False))
         return val
+
+    def sqrt_of(self, x: "Sym") -> "Sym":
+        """x ** 0.5 as a fresh non-negative atom s with s*s == x (memoised per path; x >= 0 is required)."""
+        if x.is_const():
+            v = x.const_value()
+            if v < 0:
+                raise ValueError("sqrt of a negative constant")
+            import math
+
+            n, d = math.isqrt(v.numerator), math.isqrt(v.denominator)
+            if n * n == v.numerator and d * d == v.denominator:
+                return Sym(cp_const(Fraction(n, d)))
+        key = ("sqrt", tuple(sorted(x.num.items())), tuple(sorted(x.den.items())))
+        hit = self.path_cache.get(key)
+        if hit is not None:
+            return hit
+        n = sum(1 for k in self.path_cache if isinstance(k, tuple) and k and k[0] == "sqrt")
+        s = Sym.atom("sqrt!%d" % n)
+        sz = z3_atom("sqrt!%d" % n)
+        self.assume(z3.And(sz >= 0, sz * sz == x.z3()))
+        self.path_cache[key] = s
+        return s
 
     def assume(self, t):
         """Constrain the current path; abandon it if infeasible."""
